@@ -177,6 +177,15 @@ def gen_cases(rng, tier):
             d = descs[0] if len(descs) == 1 or not r.chance(25) else descs[1]
             recs.append(_gen_rec(r, d))
         cases.append({"kind": "seq", "recs": recs, "stop": not r.chance(30)})
+    # two types of one name that a 32-bit identifier cannot tell apart (colliding hash input), and two that differ in
+    # one field only: the second type must be refused as a mixed record type, whatever the order
+    r = rng.fork("samename")
+    cx = [["t/x", [["stringlist", "a"], ["string", "b"]]], ["t/x", [["string", "a"], ["string", "listb"]]]]
+    ev = [["t/ev", [["string", "s"], ["varint", "n"]]], ["t/ev", [["string", "s"], ["varint", "n"], ["string", "extra"]]]]
+    for pair in (cx, list(reversed(cx)), ev, list(reversed(ev))):
+        for _ in range(2 * n):
+            recs = [_gen_rec(r, pair[0])] + [_gen_rec(r, r.choice(pair)) for _ in range(r.randint(1, 3))] + [_gen_rec(r, pair[1])]
+            cases.append({"kind": "seq", "recs": recs, "stop": not r.chance(30)})
     r = rng.fork("jtype")
     for _ in range(120 * n):
         cases.append({"kind": "jtype", "type": _gen_jtype(r)})
